@@ -1,11 +1,11 @@
 package eng
 
 import (
-	"os"
 	"fmt"
 	"go/ast"
 	"go/token"
 	"go/types"
+	"os"
 	"sort"
 
 	"golang.org/x/tools/go/ssa"
@@ -91,14 +91,14 @@ type modNote struct {
 }
 
 type dryRun struct {
-	depth  int
-	parent *dryRun
-	li     *loopInfo
-	fr     *frame
-	notes  []modNote
-	all    bool
-	allPlain bool // some havoc-all did not come from a call with an assumed frame
-	baseRgn uint32 // regions allocated after this number are born inside the loop
+	depth    int
+	parent   *dryRun
+	li       *loopInfo
+	fr       *frame
+	notes    []modNote
+	all      bool
+	allPlain bool   // some havoc-all did not come from a call with an assumed frame
+	baseRgn  uint32 // regions allocated after this number are born inside the loop
 }
 
 func (d *dryRun) each(f func(*dryRun)) {
@@ -121,12 +121,12 @@ func (d *dryRun) noteAll() { d.each(func(x *dryRun) { x.all = true; x.allPlain =
 func (d *dryRun) noteAllKeeping() { d.each(func(x *dryRun) { x.all = true }) }
 
 type modSet struct {
-	cells   []modNote
-	regions []modNote
-	all     bool
+	cells    []modNote
+	regions  []modNote
+	all      bool
 	allPlain bool
-	unknown bool // some havoc-all came from the body itself (a call without a frame, an unsupported construct)
-	keys    map[string]bool
+	unknown  bool // some havoc-all came from the body itself (a call without a frame, an unsupported construct)
+	keys     map[string]bool
 }
 
 func (m *modSet) add(n modNote) bool {
@@ -151,12 +151,12 @@ func (m *modSet) add(n modNote) bool {
 type loopCut struct {
 	headCalls *Term
 	headHeap  Heap
-	li       *loopInfo
-	invs     []loopInv
-	variant  *Term // value at the loop head of the cut iteration (nil: none)
-	varText  string
-	entrySt  *State
-	names    map[string]SVal
+	li        *loopInfo
+	invs      []loopInv
+	variant   *Term // value at the loop head of the cut iteration (nil: none)
+	varText   string
+	entrySt   *State
+	names     map[string]SVal
 }
 
 type loopInv struct {
@@ -332,7 +332,9 @@ func (e *Engine) restoreOutsideFrame(fr *frame, st *State, old Heap) {
 		for k := range fr.regs {
 			keys = append(keys, k)
 		}
-		sort.Slice(keys, func(i, j int) bool { return keys[i].Pos() < keys[j].Pos() || (keys[i].Pos() == keys[j].Pos() && keys[i].Name() < keys[j].Name()) })
+		sort.Slice(keys, func(i, j int) bool {
+			return keys[i].Pos() < keys[j].Pos() || (keys[i].Pos() == keys[j].Pos() && keys[i].Name() < keys[j].Name())
+		})
 		for _, k := range keys {
 			walk(fr.regs[k])
 		}
@@ -965,7 +967,6 @@ func (e *Engine) evalHead(fr *frame, li *loopInfo, v ssa.Value, depth int) (Valu
 	return nil, false
 }
 
-
 // mentionsNewVar: t contains a variable created after the term with the given ID.
 func mentionsNewVar(t *Term, id int) bool {
 	found := false
@@ -976,7 +977,6 @@ func mentionsNewVar(t *Term, id int) bool {
 	})
 	return found
 }
-
 
 // localsAt: the source-level local variables visible at block b (DebugRefs in blocks that dominate b, and in b
 // itself), as loop clauses see them: address-taken non-struct locals denote their current contents.
